@@ -2,6 +2,7 @@
 //! appendix A. Shares no code with /repo. Used as judge (fsck/decoder), as foreign producer
 //! (encoder) and as field locator for structure-aware corruption.
 pub mod decode;
+pub mod encode;
 pub mod page;
 pub mod xml;
 
@@ -33,8 +34,14 @@ pub fn diff_file(got: &FileRead, want: &FileRead, compare_bounds: bool) -> Optio
     if got.creation != want.creation {
         return Some(format!("creationDateTime {:?} vs {:?}", got.creation, want.creation));
     }
-    if got.extensions != want.extensions {
-        return Some(format!("extensions {:?} vs {:?}", got.extensions, want.extensions));
+    {
+        // declaration order of namespace prefixes on the root element carries no meaning
+        let (mut a, mut b) = (got.extensions.clone(), want.extensions.clone());
+        a.sort();
+        b.sort();
+        if a != b {
+            return Some(format!("extensions {:?} vs {:?}", got.extensions, want.extensions));
+        }
     }
     if got.pcs.len() != want.pcs.len() {
         return Some(format!("{} vs {} point clouds", got.pcs.len(), want.pcs.len()));
